@@ -449,7 +449,10 @@ class Sim:
         return not self._in_loop
 
     def on_put(self, ctx):
-        pass
+        kind = self._cmd_kind(ctx)
+        if kind in ('jobs-poll', 'jobs-kill'):
+            dirs = [a for a in ctx.cmd if a.count('/') == 2 and a[0] != '/']
+            self.ev('put', ckind=kind, jobs=dirs)
 
     def _cmd_kind(self, ctx) -> str:
         key = ctx.cmd_key
@@ -472,10 +475,12 @@ class Sim:
         ts = '2000-01-01T00:00:00Z'
         if kind == 'jobs-submit':
             out = []
+            it['jobs'] = []
             for rel in ctx.cmd_kwargs.get('job_log_dirs', []):
                 cycle, name, nn = rel.split('/')
                 sn = int(nn)
                 key = (cycle, name, sn)
+                it['jobs'].append(key)
                 self.journal.append(key)
                 prereqs = self._prereq_snapshot(cycle, name)
                 script, ok = self._script_for(cycle, name, sn)
@@ -758,6 +763,19 @@ class Sim:
         server thread would put it)."""
         from cylc.flow.id import Tokens
         from cylc.flow.network.resolvers import TaskMsg
+        # Harness constraint (soundness of the schedule domain): a job's
+        # final message is not delivered while the jobs-submit command that
+        # launched it has not returned yet; the command is returned first
+        # and the message stays in flight.  ("started" may still overtake
+        # the submit callback.)
+        if msg['msg'] == 'succeeded' or msg['msg'].startswith('failed'):
+            for it in self.pending_cmds():
+                if it.get('kind') == 'jobs-submit' and tuple(
+                        msg['job']) in it.get('jobs', ()):
+                    it['returned'] = True
+                    self.ev('deliver-deferred', job=list(msg['job']),
+                            msg=msg['msg'])
+                    return False
         if not keep and msg in self.inflight:
             self.inflight.remove(msg)
         if not self.running:
@@ -816,6 +834,35 @@ class Sim:
         pool.add_to_pool = add_to_pool
         pool.remove = remove
 
+        tem = schd.task_events_mgr
+        orig_pm = tem.process_message
+        depth = [0]
+
+        def process_message(itask, severity, message, event_time=None,
+                            flag=tem.FLAG_INTERNAL, submit_num=None,
+                            forced=False):
+            top = depth[0] == 0
+            depth[0] += 1
+            if top:
+                before = (itask.state.status, itask.submit_num, sorted(
+                    itask.state.outputs.get_completed_outputs()))
+                n_put = sim.cluster.n_put if sim.cluster else 0
+            try:
+                r = orig_pm(itask, severity, message, event_time, flag,
+                            submit_num, forced)
+            finally:
+                depth[0] -= 1
+            if top and not itask.transient:
+                after = (itask.state.status, itask.submit_num, sorted(
+                    itask.state.outputs.get_completed_outputs()))
+                sim.ev('pm', cycle=str(itask.point), name=itask.tdef.name,
+                       msg=message, flag=flag, msg_submit_num=submit_num,
+                       before=list(before), after=list(after), ret=bool(r),
+                       forced=bool(forced))
+            return r
+
+        tem.process_message = process_message
+        # the job manager and pool hold their own references
         orig_cbs = pool.can_be_spawned
 
         def can_be_spawned(name, point):
